@@ -41,6 +41,11 @@ PROPS = {
             {"engine": "log", "test": "TestVF_C20_Exhaustive", "kind": "plain", "tiers": ["thorough"]},
         ],
     },
+    "C05": {"level": "exploration", "assumptions": BASE_ASSUME + ["the rate limiter's clock is injected (ratelimit.Clock); tolerance as stated in the property: 1% rate margin and 2 frames of tick quantisation"],
+            "parts": [{"engine": "thr", "test": "TestVF_C05", "quick": (4, 1250), "thorough": (16, 30000)},
+                      {"engine": "thr", "test": "TestVF_C05_Composed", "quick": (2, 500), "thorough": (16, 5000)}]},
+    "C06": {"level": "exploration", "assumptions": BASE_ASSUME + ["caller-well-formed sessions only (the shape MotionProcessor produces); no lock-step model of the token bucket: budget bounds are derived from forwarded frames and elapsed time"],
+            "parts": [{"engine": "thr", "test": "TestVF_C06", "quick": (4, 1250), "thorough": (16, 30000)}]},
     "C07": {"level": "exploration", "assumptions": BASE_ASSUME + ["the reference detector is an independent implementation of the statement; count-thresh >= 1, gap >= 1, 2*edge < min(w,h)"],
             "parts": [{"engine": "mp", "test": "TestVF_C07", "quick": (4, 5000), "thorough": (16, 100000)}]},
     "C08": {"level": "exploration", "assumptions": BASE_ASSUME + ["metamorphic relation over pairs of streams; background and threshold are read in-package after every frame"],
